@@ -84,8 +84,8 @@ PROPS = {
         "level_note": "Trusted: header signature abstracted to a key (the real one is the first 87 BYTES of the rendered header: the oracle found that a multi-byte character shifts the cut - known finding); Copy()'s pointer sharing, Create of merged batches (C05) not modelled.",
     },
     "C14": {
-        "streams": [],
-        "level_text": "Partial proof: the regenerated census of assignments/mutator calls through the receiver in the read-only API is exactly the three known mutators (File.IsADV, FileHeader routing field methods, EntryDetail.PaymentTypeField); each is proved to be the identity on canonical values (what the Reader and the constructors produce); counterexample for an API-built header with a leading blank (known finding D16). Purity of the rest is syntactic (census), aliasing and the clock (D10) are not exhibited; the oracle snapshots JSON+text around sequences of the read-only calls.",
+        "streams": [("readonly", 3000, 40000)],
+        "level_text": "Partial proof: the regenerated census of assignments/mutator calls through the receiver in the read-only API is exactly the three known mutators (File.IsADV, FileHeader routing field methods, EntryDetail.PaymentTypeField); each is proved to be the identity on canonical values (what the Reader and the constructors produce); counterexample for an API-built header with a leading blank (known finding D16). Purity of the rest is syntactic (census), aliasing and the clock (D10) are not exhibited; the readonly stream runs the three real mutators on arbitrary stored values (every Unicode blank, absent headers/controls, ADV) against their modelled effects; the oracle snapshots JSON+text around sequences of the read-only calls.",
         "level_note": "Trusted: census is one call level deep and syntactic.",
     },
     "C15": {
